@@ -1,5 +1,5 @@
 """Source tables for MANIFEST.json (run ./tools_manifest.py after editing)."""
-HOOK_COMMITS = []
+HOOK_COMMITS = ["b9f17e3"]
 
 COMMON_NOTE = ("Trusted: Coq 8.16.1 kernel incl. vm_compute; translator/ (syntactic Go->Coq tables); extraction with "
                "ExtrOcamlBasic only + driver.ml; Go harness and python comparator; Go toolchain. The model is hand-written "
